@@ -3,6 +3,7 @@ import CgtModel.Props.C02
 import CgtModel.Lemmas.SpecPerm
 import CgtModel.Lemmas.SpecTable
 import CgtModel.Props.C01
+import CgtModel.Props.C13
 /-! # C06 — the report does not depend on line order, file split or fill splitting
 
 Full statement: permuting the input lines, distributing them over files, or recording one trade as
@@ -205,5 +206,15 @@ theorem C06_ledger_fills (t : String) (D : Date) (q1 p1 f1 q2 p2 f2 q p f : Rat)
   rw [ht, hid] at c'
   exact ⟨by rw [c'.2.2, c.2.2], by rw [← c'.1, ← c.1], by rw [← c'.2.1, ← c.2.1]⟩
 
+
+/-- **lines dealt over several input files**: the CLI joins the files' texts with a line feed (translator
+    group `cli_join`), and the joined text parses to the concatenation of the files' transaction lists
+    (`C13.parse_joined_files`), whatever the last line of a file looks like; which file a line sits in
+    therefore only decides its position in the list, and `C06_ledger_perm` covers every such position -/
+theorem C06_files_are_one_list (valid : List String) (a b : List Char) :
+    C13.okList valid (a ++ '\n' :: b) = (match C13.okList valid a, C13.okList valid b with
+      | some x, some y => some (x ++ y)
+      | _, _ => none) ∧ Cgt.cliFileJoin = "\n" :=
+  ⟨C13.parse_joined_files valid a b, C13.C13_files_joined_by_line_feed⟩
 
 end Cgt.C06
